@@ -646,7 +646,19 @@ class Exec:
             if isinstance(c, tuple):
                 return z3.BitVecVal(c[1], INT_W[c[0]])
             return StrC(c)
-        # unit-like enum variant / struct constant, e.g. `const Token::Comma`? rare
+        # constant ADT value, e.g. `Result::<Infallible, fmt::Error>::Err(std::fmt::Error)`, `Token::Comma`
+        if re.match(r"^[A-Za-z_<]", t) and (t.endswith(")") or re.search(r"::[A-Z]\w*$", t)):
+            try:
+                rv = mirparse.parse_rvalue(t)
+            except mirparse.ParseError:
+                rv = None
+            if rv and rv[0] == "agg" and rv[1] == "adt":
+                segs = [x for x in mirparse._split_path(rv[2]) if not x.startswith("<")]
+                clean = [re.sub(r"<.*>$", "", x) for x in segs]
+                if len(clean) >= 2 and self.enum_variants(clean[-2]) and clean[-1] in self.enum_variants(clean[-2]):
+                    vals = [self.const(fr, f[1]) if f[0] == "const" else None for f in rv[3]]
+                    if all(v is not None for v in vals):
+                        return Agg(clean[-2], clean[-1], vals)
         return FnItem(t)
 
     def operand(self, st, fr, op, want_ty=None):
@@ -1271,9 +1283,13 @@ class Exec:
             if len(st.frames) >= self.max_depth:
                 raise Unsupported("inline depth exceeded at " + callee[:100])
             target = self.resolve(callee)
+            wrap = None
+            if target is None and callee.rstrip().endswith("::ne"):
+                target = self.resolve(callee.rstrip()[:-2] + "eq")
+                wrap = z3.Not
             if target is None or not target.blocks:
                 raise Unsupported("cannot resolve callee to inline: " + callee[:120])
-            r = Inline(target, args)
+            r = Inline(target, args, wrap)
         # 3. uninterpreted
         if r is NotImplemented:
             r = self.uf_call(st, callee, args, argtys, dest_ty, fr=fr)
